@@ -291,7 +291,8 @@ def check_rows_match(row1: Row[Variable], row2: Row[Variable], bb: BB) -> None:
     map1, map2 = {v.name: v for v in row1}, {v.name: v for v in row2}
     if _verif.ON:
         map1 = _verif.sched_dict(map1, "check_rows_match")
-    for x in map1.keys() | map2.keys():
+    # Iterate in row order (a set of names would be ordered by string hash)
+    for x in dict.fromkeys((*map1, *map2)):
         # If block signature lengths don't match but no undefined error was thrown, some
         # variables may be shadowing global variables.
         v1, v2 = map1[x], map2[x]
